@@ -8,9 +8,9 @@ def extractionErrors : List String := []
 def evaluate : String :=
   String.join [
     "(block (:= (v2 v3 v4) ((call (. (. v0 target) Project)) (call (. (. v0 target) Label)) (call (. (. v0 target) info)))) (= ((. v0 data)) ((call (. v4 stamp)))) (:= (v5) (true)) (:= (v6) ((call (. (. v0 target) dependencies)))) (:= (v7) ((lit (map string string)))) (var (v8) (array _ string) ()) (range v9 v10 (call (. v1 EvaluateTargets) v6 ...) (block (if _ (!= (. v10 Error) nil) (block (typeswitch _ (:= (v11) ((assert (. v10 Error) _))) (case (UnknownTargetError) (call (. (. v2 events) TargetFailed) v3 (call (. fmt Errorf) \"missing dependency: %w\" (. v10 Error)))) (case ((. runner CyclicDependencyError)) (call (. (. v2 events) TargetFailed) v3 v11))) (return (call (. fmt Errorf) \"dependency %v failed\" (index v6 v9)))) _) (:= (v3) ((index v6 v9))) (:= (v12) ((. (assert (. v10 Target) (* run",
-    "Target)) data))) (= ((index v7 v3)) (v12)) (:= (v13 v14) ((index (. v4 Dependencies) v3))) (if _ (|| (|| (u! v14) (. (assert (. v10 Target) (* runTarget)) changed)) (!= v12 v13)) (block (= (v8) ((call append v8 v3))) (= (v5) (false))) _))) (:= (v15 v16 v17 v11) ((call (. (. v0 target) upToDate)))) (if _ (!= v11 nil) (block (call (. (. v2 events) TargetFailed) v3 v11) (return v11)) _) (if _ (&& (&& (&& (u! (. v2 always)) v5) v15) (u! (. v4 Rerun))) (block (call (. (. v2 events) TargetUpToDate) v3) (return nil)) _) (switch _ _ (case ((u! v15))) (case ((. v2 always)) (= (v16) (\"always\"))) (case ((u! v5)) (= (v16) ((call (. fmt Sprintf) \"out-of-date dependencies: %v\" (call (. strings Join) v8 \", \"))))) (case ((. v4 Rerun)) (= (v16) (\"failed during last run\")))) (call (. (. v2 events) TargetEva",
-    "luating) v3 v16 v17) (if _ (. v2 dryrun) (block (= ((. v0 changed)) (true)) (call (. (. v2 events) TargetSucceeded) v3 true) (return nil)) _) (if _ (call IsTarget v3) (block (:= (v18) (v4)) (= ((. v18 Rerun)) (true)) (if (:= (v11) ((call (. v2 saveTargetInfo) v3 v18))) (!= v11 nil) (block (call (. (. v2 events) TargetFailed) v3 v11) (return v11)) _)) _) (call verifPoint \"target.body.before\" (call (. v3 String))) (:= (v19 v20 v11) ((call (. (. v0 target) evaluate)))) (call verifPoint \"target.body.after\" (call (. v3 String))) (if _ (!= v11 nil) (block (call (. (. v2 events) TargetFailed) v3 v11) (call verifPoint \"target.record.failure\" (call (. v3 String))) (call (. v2 saveTargetInfo) v3 (lit targetInfo (kv Doc (call (. (. v0 target) Doc))) (kv Dependencies v7) (kv Rerun true) (kv Runs (. v4",
-    " Runs)))) (return v11)) _) (:= (v21) ((lit targetInfo (kv Doc (call (. (. v0 target) Doc))) (kv Dependencies v7) (kv Data (. v4 Data)) (kv Runs (. v4 Runs))))) (= ((. v0 changed)) (v20)) (if _ v20 (block (= ((. v21 Data)) (v19)) (if _ (call IsTarget v3) (block (++ (. v21 Runs))) _)) _) (= ((. v0 data)) ((call (. v21 stamp)))) (call verifPoint \"target.record.success\" (call (. v3 String))) (= (v11) ((call (. v2 saveTargetInfo) v3 v21))) (if _ (!= v11 nil) (block (call (. (. v2 events) TargetFailed) v3 v11) (return v11)) _) (call (. (. v2 events) TargetSucceeded) v3 v20) (return nil))"]
+    "Target)) data))) (= ((index v7 v3)) (v12)) (:= (v13 v14) ((index (. v4 Dependencies) v3))) (if _ (|| (|| (u! v14) (. (assert (. v10 Target) (* runTarget)) changed)) (!= v12 v13)) (block (= (v8) ((call append v8 v3))) (= (v5) (false))) _))) (if _ (&& v5 (!= (call len (. v4 Dependencies)) (call len v7))) (block (= (v8) ((call append v8 \"(removed dependencies)\"))) (= (v5) (false))) _) (:= (v15 v16 v17 v11) ((call (. (. v0 target) upToDate)))) (if _ (!= v11 nil) (block (call (. (. v2 events) TargetFailed) v3 v11) (return v11)) _) (if _ (&& (&& (&& (u! (. v2 always)) v5) v15) (u! (. v4 Rerun))) (block (call (. (. v2 events) TargetUpToDate) v3) (return nil)) _) (switch _ _ (case ((u! v15))) (case ((. v2 always)) (= (v16) (\"always\"))) (case ((u! v5)) (= (v16) ((call (. fmt Sprintf) \"out-of-date d",
+    "ependencies: %v\" (call (. strings Join) v8 \", \"))))) (case ((. v4 Rerun)) (= (v16) (\"failed during last run\")))) (call (. (. v2 events) TargetEvaluating) v3 v16 v17) (if _ (. v2 dryrun) (block (= ((. v0 changed)) (true)) (call (. (. v2 events) TargetSucceeded) v3 true) (return nil)) _) (if _ (call IsTarget v3) (block (:= (v18) (v4)) (= ((. v18 Rerun)) (true)) (if (:= (v11) ((call (. v2 saveTargetInfo) v3 v18))) (!= v11 nil) (block (call (. (. v2 events) TargetFailed) v3 v11) (return v11)) _)) _) (call verifPoint \"target.body.before\" (call (. v3 String))) (:= (v19 v20 v11) ((call (. (. v0 target) evaluate)))) (call verifPoint \"target.body.after\" (call (. v3 String))) (if _ (!= v11 nil) (block (call (. (. v2 events) TargetFailed) v3 v11) (call verifPoint \"target.record.failure\" (call (. v3 S",
+    "tring))) (call (. v2 saveTargetInfo) v3 (lit targetInfo (kv Doc (call (. (. v0 target) Doc))) (kv Dependencies v7) (kv Rerun true) (kv Runs (. v4 Runs)))) (return v11)) _) (:= (v21) ((lit targetInfo (kv Doc (call (. (. v0 target) Doc))) (kv Dependencies v7) (kv Data (. v4 Data)) (kv Runs (. v4 Runs))))) (= ((. v0 changed)) (v20)) (if _ v20 (block (= ((. v21 Data)) (v19)) (if _ (call IsTarget v3) (block (++ (. v21 Runs))) _)) _) (= ((. v0 data)) ((call (. v21 stamp)))) (call verifPoint \"target.record.success\" (call (. v3 String))) (= (v11) ((call (. v2 saveTargetInfo) v3 v21))) (if _ (!= v11 nil) (block (call (. (. v2 events) TargetFailed) v3 v11) (return v11)) _) (call (. (. v2 events) TargetSucceeded) v3 v20) (return nil))"]
 
 def fnUpToDate : String :=
   "(block (if _ (!= v3 nil) (block (return false \"\" nil (call (. fmt Errorf) \"computing function environment: %w\" v3))) _) (if _ (. v0 always) (block (= ((. (. v0 targetInfo) Rerun)) (true)) (return true \"\" nil nil)) _) (:= (v4 v5 v6 v3) ((call (. v0 diffEnv)))) (if _ (|| (!= v3 nil) (u! v4)) (block (return false v5 v6 v3)) _) (range _ v7 (. v0 gens) (block (if (= (_ v3) ((call (. os Stat) v7))) (!= v3 nil) (block (if _ (call (. os IsNotExist) v3) (block (return false v5 nil nil)) _) (return false \"\" nil (call (. fmt Errorf) \"checking generated files: %w\" v3))) _))) (return true \"\" nil nil))"
@@ -91,19 +91,19 @@ def stamp : String :=
   "(block (if _ (== (. v0 Runs) 0) (block (return (. v0 Data))) _) (return (call (. fmt Sprintf) \"%s@%d\" (. v0 Data) (. v0 Runs))))"
 
 def escapeLabel : String :=
-  "(absent)"
+  "(block (if _ (&& (call (. utf8 ValidString) v0) (u! (call (. strings ContainsRune) v0 (. utf8 RuneError)))) (block (return v0)) _) (var (v1) (. strings Builder) ()) (for (:= (v2) (0)) (< v2 (call len v0)) _ (block (:= (v3 v4) ((call (. utf8 DecodeRuneInString) (slice v0 v2 _ _)))) (switch _ _ (case ((&& (== v3 (. utf8 RuneError)) (== v4 1))) (call (. fmt Fprintf) (u& v1) \"\\uFFFD%02x\" (index v0 v2))) (case ((== v3 (. utf8 RuneError))) (call (. v1 WriteString) \"\\uFFFD--\")) (default (call (. v1 WriteString) (slice v0 v2 (+ v2 v4) _)))) (+= (v2) (v4)))) (return (call (. v1 String))))"
 
 def unescapeLabel : String :=
-  "(absent)"
+  "(block (if _ (u! (call (. strings ContainsRune) v0 (. utf8 RuneError))) (block (return v0)) _) (var (v1) _ (\"\\uFFFD\")) (var (v2) (. strings Builder) ()) (for (:= (v3) (0)) (< v3 (call len v0)) _ (block (if _ (&& (call (. strings HasPrefix) (slice v0 v3 _ _) v1) (<= (+ (+ v3 (call len v1)) 2) (call len v0))) (block (:= (v4) ((slice v0 (+ v3 (call len v1)) (+ (+ v3 (call len v1)) 2) _))) (if _ (== v4 \"--\") (block (call (. v2 WriteString) v1) (+= (v3) ((+ (call len v1) 2))) (continue)) _) (if (:= (v5 v6) ((call (. strconv ParseUint) v4 16 8))) (== v6 nil) (block (call (. v2 WriteByte) (call byte v5)) (+= (v3) ((+ (call len v1) 2))) (continue)) _)) _) (call (. v2 WriteByte) (index v0 v3)) (++ v3))) (return (call (. v2 String))))"
 
 def depStampsMarshal : String :=
-  "(absent)"
+  "(block (:= (v1) ((call make (map string string) (call len v0)))) (range v2 v3 v0 (block (= ((index v1 (call escapeLabel v2))) (v3)))) (return (call (. json Marshal) v1)))"
 
 def depStampsUnmarshal : String :=
-  "(absent)"
+  "(block (var (v2) (map string string) ()) (if (:= (v3) ((call (. json Unmarshal) v1 (u& v2)))) (!= v3 nil) (block (return v3)) _) (if _ (== v2 nil) (block (= ((* v0)) (nil)) (return nil)) _) (= ((* v0)) ((call make depStamps (call len v2)))) (range v4 v5 v2 (block (= ((index (* v0) (call unescapeLabel v4))) (v5)))) (return nil))"
 
 def dependenciesType : String :=
-  "map"
+  "depStamps"
 
 def targetInfoFields : List (String × String) :=
   [("Doc", "doc,omitempty"), ("Dependencies", "dependencies,omitempty"), ("Data", "stamp,omitempty"), ("Rerun", "rerun,omitempty"), ("Runs", "runs,omitempty")]
